@@ -103,11 +103,12 @@ objects, non-hit first objects, … — and one record per difficulty object, th
 `TaikoGradualDifficulty` (`H` = number of hits) run with the CONCRETE five skills are the one-shot
 results for `passed_objects = 1, …, H`: same `max_combo`, same five skill states (hence, bit for bit
 in the IEEE instance, the same ratings and stars), same panic / fuel outcome.  (Since /repo ea9de37;
-before the repair this needed "first two objects are hits, ≥ 3 objects".)  When the last object is
-a hit, every `passed_objects ≥ H` gives the same result as `H`, so the last gradual value is the
-full calculation; without that hypothesis the final-value clause is false of the code (recorded
-finding `taiko-gradual-trailing-nonhit`: the unlimited one-shot path also processes drum rolls /
-swells after the last hit). -/
+before the repair this needed "first two objects are hits, ≥ 3 objects".)  Every
+`passed_objects ≥ H` gives the same result as `H`, so the last gradual value is the full calculation —
+for every object list since the fix of the trailing drum rolls / swells (`DifficultyValues::calculate`
+processes all difficulty objects once the limit reaches the number of hits, the gradual calculator
+drains its iterator when it reports the last hit); before it this needed "the last object is a hit"
+(the former finding `taiko-gradual-trailing-nonhit`). -/
 theorem taiko_pipeline_gradual_eq_oneshot (A : SecArith R) (fuel : Nat) (hw : R)
     (hits : List Bool) (recs : List (TObj R)) (hlen : recs.length = hits.length - 2) :
     ((taikoMachine (concreteSkills5 A fuel hw false recs) hits).nexts
@@ -117,7 +118,7 @@ theorem taiko_pipeline_gradual_eq_oneshot (A : SecArith R) (fuel : Nat) (hw : R)
         | Gradual.Res.none => Gradual.Res.none
         | Gradual.Res.panic => Gradual.Res.panic)
       = (List.range (hitsIn hits)).map (fun d => Gradual.Res.some (oneShotSkills A fuel hw hits recs (d + 1))) ∧
-    (hits.getLast? = some true → ∀ big, hitsIn hits ≤ big →
+    (∀ big, hitsIn hits ≤ big →
       oneShotSkills A fuel hw hits recs (hitsIn hits) = oneShotSkills A fuel hw hits recs big) := by
   constructor
   · rw [(taiko_next_eq_prefix _ hits).1]
@@ -127,10 +128,10 @@ theorem taiko_pipeline_gradual_eq_oneshot (A : SecArith R) (fuel : Nat) (hw : R)
     simp only [Function.comp]
     have := taikoOneShot_concrete A fuel hw hits recs hlen (d + 1)
     rw [← this]
-  · intro hlast big hbig
+  · intro big hbig
     rw [← taikoOneShot_concrete A fuel hw hits recs hlen (hitsIn hits),
       ← taikoOneShot_concrete A fuel hw hits recs hlen big,
-      taiko_last_eq_full _ hits hlast big hbig]
+      taiko_last_eq_full _ hits big hbig]
 
 end Every
 
